@@ -681,17 +681,10 @@ def stream_schedule(res: Result, tier: str, driver_ok: bool, ref: list[tuple[str
             res.violation("request_from_xml_file: id / file name / hash are not those of its argument", case, key="schedule:rfxf", observed=out, expected_sha256=ref_hex(sha(b)))
 
 
-def stream_entry(res: Result, tier: str, driver_ok: bool, ref: list[tuple[str, str]]) -> None:
-    """The real ksrsigner() up to its confirmation prompt, over a changing file."""
-    import argparse
-
-    import kskm.ksr.load as kl
+def _entry_config() -> Any:
     from kskm.common.config import KSKMConfig
-    from kskm.tools import ksrsigner as ks
 
-    base = KSR_FILE.read_bytes()
-    v = [with_id(base, f"entry-{i}") for i in range(5)]
-    config = KSKMConfig.from_dict(
+    return KSKMConfig.from_dict(
         {
             "hsm": {},
             "schemas": {"normal": {i: {"publish": [], "sign": "ksk_current"} for i in range(1, 10)}},
@@ -699,98 +692,168 @@ def stream_entry(res: Result, tier: str, driver_ok: bool, ref: list[tuple[str, s
             "request_policy": {"signature_check_expire_horizon": False},
         }
     )
-    scheds = [("stable", [v[0]]), ("every-op-differs", v), ("replaced-after-read", [v[0], v[0], v[0], v[1], v[2], v[3]]), ("replaced-before-read", [v[0], v[1], v[2], v[2]])]
-    lines = []
-    cases = []
-    for tag, contents in scheds:
-        path = "/verif-world/entry-ksr.xml"
-        world = World(path, contents)
-        args = argparse.Namespace(
-            config=None, schema="normal", previous_skr=None, ksr=path, skr=None, log_ksr_contents=False, log_skr_contents=False,
-            log_previous_skr_contents=False, force=False, hsm=None, debug=False, syslog=False,
-        )
-        buf = io.StringIO()
-        prompts: list[str] = []
 
-        def fake_input(prompt: str = "") -> str:
-            prompts.append(prompt)
-            return "no"
 
-        import builtins
+def _entry_run(tag: str, contents: list[bytes], config: Any) -> dict[str, Any]:
+    """The real ksrsigner() up to its confirmation prompt (answer "no") over the schedule `contents`; everything observable."""
+    import argparse
+    import builtins
 
-        old_input = builtins.input
-        builtins.input = fake_input
+    import kskm.ksr.load as kl
+    from kskm.tools import ksrsigner as ks
+
+    path = "/verif-world/entry-ksr.xml"
+    world = World(path, contents)
+    args = argparse.Namespace(
+        config=None, schema="normal", previous_skr=None, ksr=path, skr=None, log_ksr_contents=False, log_skr_contents=False,
+        log_previous_skr_contents=False, force=False, hsm=None, debug=False, syslog=False,
+    )
+    buf = io.StringIO()
+    prompts: list[str] = []
+
+    def fake_input(prompt: str = "") -> str:
+        prompts.append(prompt)
+        return "no"
+
+    old_input = builtins.input
+    builtins.input = fake_input
+    try:
+        with capture_logs("kskm", "verif.entry") as logs, patched_module(kl, world), contextlib.redirect_stdout(buf):
+            out = run_impl(lambda: ks.ksrsigner(logging.getLogger("verif.entry"), args, config), lambda x: x)
+    finally:
+        builtins.input = old_input
+    printed = buf.getvalue().split("\n")
+    reads = world.reads()
+    served = reads[0][1] if reads else None
+    messages = []
+    for rec in logs.records:
         try:
-            with capture_logs("kskm", "verif.entry") as logs, patched_module(kl, world), contextlib.redirect_stdout(buf):
-                out = run_impl(lambda: ks.ksrsigner(logging.getLogger("verif.entry"), args, config), lambda x: x)
-        finally:
-            builtins.input = old_input
-        printed = buf.getvalue().split("\n")
-        reads = world.reads()
-        served = reads[0][1] if reads else None
-        cases.append({"tag": tag, "world": world, "out": out, "printed": printed, "served": served, "prompts": prompts, "shown": shown_digests(logs), "path": path,
-                      "table": [r.getMessage() for r in logs.records if r.name == "verif.entry"]})
-        lines.append({"op": "ksrsigner_display", "filename": path, "xmlHash": None if served is None else hexs(sha(served))})
+            messages.append([rec.name, rec.levelname, rec.getMessage()])
+        except Exception:  # noqa: BLE001
+            messages.append([rec.name, rec.levelname, "<unformattable>"])
+    return {"tag": tag, "world": world, "out": out, "printed": printed, "served": served, "prompts": prompts, "shown": shown_digests(logs), "path": path,
+            "table": [r.getMessage() for r in logs.records if r.name == "verif.entry"], "messages": messages}
+
+
+def _entry_line(c: dict[str, Any]) -> dict[str, Any]:
+    return {"op": "ksrsigner_display", "filename": c["path"], "xmlHash": None if c["served"] is None else hexs(sha(c["served"]))}
+
+
+def _entry_judge(res: Result, ref: list[tuple[str, str]], case: dict[str, Any], c: dict[str, Any], m: Any, keyp: str = "") -> dict[str, Any]:
+    """The property on one run of the entry point (+ the tie to the model's display block).  Returns the observation."""
+    world = c["world"]
+    served = c["served"]
+    printed = c["printed"]
+    obs = {"out": c["out"], "printed": printed[:8], "opens": world.opens(), "reads": [(t, len(b)) for t, b in world.reads()], "prompts": len(c["prompts"]), "shown": [s[0] for s in c["shown"]]}
+    if c["out"] != {"ok": False} or len(c["prompts"]) != 1:
+        if "error" in c["out"] and not c["prompts"]:
+            # the KSR exists only behind the names the loader uses (one open, one read): an error before the prompt on a
+            # loadable KSR means the file was reached for again by another route - not "the bytes actually used"
+            res.violation("ksrsigner: a loadable KSR was accessed again outside its single read before the prompt (the run ended in an error)", case, key=keyp + "entry:second-access", observed=obs)
+        else:
+            res.violation("ksrsigner entry point did not stop at its confirmation prompt as expected (harness expectation)", case, key=keyp + "entry:flow", observed=obs)
+        return obs
+    hexl = [x for x in printed if x.startswith("SHA-256 HEX:")]
+    wordl = [x for x in printed if x.startswith("SHA-256 WORDS:")]
+    fnl = [x for x in printed if x.startswith("FILENAME:")]
+    want_hex = ref_hex(sha(served)) if served is not None else None
+    if world.opens() != 1 or len(world.reads()) != 1:
+        res.violation("ksrsigner: the KSR was opened / read more than once before the prompt", case, key=keyp + "entry:reads", observed=obs)
+    if len(hexl) != 1 or hexl[0].split(":", 1)[1].strip() != want_hex:
+        res.violation("ksrsigner: SHA-256 HEX shown before the prompt is not that of the bytes parsed", case, key=keyp + "entry:hex", observed=obs, served_sha256=want_hex)
+    elif len(wordl) != 1 or wordl[0].split(":", 1)[1].split() != ref_words(ref, sha(served)):
+        res.violation("ksrsigner: SHA-256 WORDS shown before the prompt are not those of the bytes parsed", case, key=keyp + "entry:words", observed=obs)
+    if len(fnl) != 1 or fnl[0].split(":", 1)[1].strip() != c["path"]:
+        res.violation("ksrsigner: FILENAME shown is not the file loaded", case, key=keyp + "entry:filename", observed=obs)
+    if [s[0] for s in c["shown"]] != [want_hex]:
+        res.violation("ksrsigner: the digest logged at load time is not the one shown at the prompt", case, key=keyp + "entry:log-vs-display", observed=obs)
+    # the bundle table logged ("Request:" then header + 9 rows) is of the bytes parsed
+    tbl = c["table"]
+    if served is not None:
+        from kskm.ksr.load import request_from_xml
+
+        req = request_from_xml(served.decode())
+        want_tbl = ["Request:"] + independent_table(req.bundles)
+        if tbl[: len(want_tbl)] != want_tbl:
+            res.violation("ksrsigner: the bundle table logged is not that of the bytes parsed", case, key=keyp + "entry:table", observed=tbl[:4], expected=want_tbl[:4])
+        # ... and of the file itself, read with a standards XML parser (times as integers: no datetime, no process zone)
+        want_file = file_table_times(served)
+        got_times = [tuple(x.split()[1:3]) for x in tbl[2 : 2 + len(want_file)]]
+        if got_times != want_file:
+            bad = next((i for i in range(len(want_file)) if i >= len(got_times) or got_times[i] != want_file[i]), None)
+            res.violation(
+                "ksrsigner: the inception / expiration shown in the bundle table are not those written in the file parsed", case, key=keyp + "entry:table-times",
+                row=None if bad is None else bad + 1, shown=None if bad is None or bad >= len(got_times) else got_times[bad], in_file=None if bad is None else want_file[bad],
+            )
+    if m is not None:
+        start = next((i for i, x in enumerate(printed) if x.startswith("FILENAME:")), None)
+        block = printed[start - 1 : start + 4] if start else None
+        if block != m:
+            res.disagreement("ksrsigner display block: model != printed", case, block, m)
+    return obs
+
+
+def stream_entry(res: Result, tier: str, driver_ok: bool, ref: list[tuple[str, str]]) -> None:
+    """The real ksrsigner() up to its confirmation prompt, over a changing file."""
+    base = KSR_FILE.read_bytes()
+    v = [with_id(base, f"entry-{i}") for i in range(5)]
+    config = _entry_config()
+    scheds = [("stable", [v[0]]), ("every-op-differs", v), ("replaced-after-read", [v[0], v[0], v[0], v[1], v[2], v[3]]), ("replaced-before-read", [v[0], v[1], v[2], v[2]])]
+    cases = [_entry_run(tag, contents, config) for tag, contents in scheds]
+    lines = [_entry_line(c) for c in cases]
     model = run_driver(lines, exe=DRIVER) if driver_ok else [None] * len(lines)
     for c, m in zip(cases, model):
         case = {"stream": "entry", "schedule": c["tag"]}
         res.count(case)
         res.bump("entry:" + c["tag"])
-        world = c["world"]
-        served = c["served"]
-        printed = c["printed"]
-        obs = {"out": c["out"], "printed": printed[:8], "opens": world.opens(), "reads": [(t, len(b)) for t, b in world.reads()], "prompts": len(c["prompts"]), "shown": [s[0] for s in c["shown"]]}
-        if c["out"] != {"ok": False} or len(c["prompts"]) != 1:
-            if "error" in c["out"] and not c["prompts"]:
-                # the KSR exists only behind the names the loader uses (one open, one read): an error before the prompt on a
-                # loadable KSR means the file was reached for again by another route - not "the bytes actually used"
-                res.violation("ksrsigner: a loadable KSR was accessed again outside its single read before the prompt (the run ended in an error)", case, key="entry:second-access", observed=obs)
-            else:
-                res.violation("ksrsigner entry point did not stop at its confirmation prompt as expected (harness expectation)", case, key="entry:flow", observed=obs)
-            continue
-        hexl = [x for x in printed if x.startswith("SHA-256 HEX:")]
-        wordl = [x for x in printed if x.startswith("SHA-256 WORDS:")]
-        fnl = [x for x in printed if x.startswith("FILENAME:")]
-        want_hex = ref_hex(sha(served)) if served is not None else None
-        if world.opens() != 1 or len(world.reads()) != 1:
-            res.violation("ksrsigner: the KSR was opened / read more than once before the prompt", case, key="entry:reads", observed=obs)
-        if len(hexl) != 1 or hexl[0].split(":", 1)[1].strip() != want_hex:
-            res.violation("ksrsigner: SHA-256 HEX shown before the prompt is not that of the bytes parsed", case, key="entry:hex", observed=obs, served_sha256=want_hex)
-        elif len(wordl) != 1 or wordl[0].split(":", 1)[1].split() != ref_words(ref, sha(served)):
-            res.violation("ksrsigner: SHA-256 WORDS shown before the prompt are not those of the bytes parsed", case, key="entry:words", observed=obs)
-        if len(fnl) != 1 or fnl[0].split(":", 1)[1].strip() != c["path"]:
-            res.violation("ksrsigner: FILENAME shown is not the file loaded", case, key="entry:filename", observed=obs)
-        if [s[0] for s in c["shown"]] != [want_hex]:
-            res.violation("ksrsigner: the digest logged at load time is not the one shown at the prompt", case, key="entry:log-vs-display", observed=obs)
-        # the bundle table logged ("Request:" then header + 9 rows) is of the bytes parsed
-        tbl = c["table"]
-        if served is not None:
-            from kskm.ksr.load import request_from_xml
-
-            req = request_from_xml(served.decode())
-            want_tbl = ["Request:"] + independent_table(req.bundles)
-            if tbl[: len(want_tbl)] != want_tbl:
-                res.violation("ksrsigner: the bundle table logged is not that of the bytes parsed", case, key="entry:table", observed=tbl[:4], expected=want_tbl[:4])
-        if m is not None:
-            start = next((i for i, x in enumerate(printed) if x.startswith("FILENAME:")), None)
-            block = printed[start - 1 : start + 4] if start else None
-            if block != m:
-                res.disagreement("ksrsigner display block: model != printed", case, block, m)
+        obs = _entry_judge(res, ref, case, c, m)
         if len(res.samples) < 5 and c["tag"] == "every-op-differs":
             res.sample({"case": case, "observed": obs, "model": m})
 
 
-def stream_output(res: Result, tier: str, driver_ok: bool, ref: list[tuple[str, str]]) -> None:
-    import kskm.signer as signer
+# ---- the writers: what is on disk afterwards, whatever was at the path before
+
+FILLER = 300_000
+PRE_STATES = ["absent", "empty", "shorter-by-1", "equal-length", "longer-by-1", "earlier-larger-document", "filler-300k", "own-earlier-output"]
+
+
+def _scratch_dir() -> Path:
+    """A directory on the REAL file system inside /verif (.scratch_* is git-ignored); the caller removes it."""
+    d = lib.VERIF / f".scratch_c17_{os.getpid()}"
+    d.mkdir(parents=True, exist_ok=True)
+    return d
+
+
+def _pre_content(state: str, doc: bytes, larger: bytes | None) -> bytes | None:
+    """What the output path holds BEFORE the writer runs (None: the path does not exist / state not applicable)."""
+    n = len(doc)
+    if state == "empty":
+        return b""
+    if state == "shorter-by-1":
+        return b"S" * (n - 1) if n > 1 else None
+    if state == "equal-length":
+        return b"E" * n
+    if state == "longer-by-1":
+        return b"L" * (n + 1)
+    if state == "earlier-larger-document":
+        return larger if larger is not None and len(larger) > n else None
+    if state == "filler-300k":
+        return b"#" * max(FILLER, n + 1)
+    return None
+
+
+def _output_objects(tier: str, r: Any) -> tuple[list[tuple[str, Any]], list[tuple[str, Any]]]:
+    import tzenv
     from kskm.common.data import AlgorithmDNSSEC
     from kskm.skr.load import response_from_xml
     from kskm.ta.data import DigestDNSSEC, KeyDigest, TrustAnchor
-    from kskm.tools import trustanchor as tat
 
-    r = lib.rng("C17:output")
     skrs = []
     for f in [SKR_FILE] + sorted((REPO / "src/kskm/signer/tests/data").glob("skr-*.xml")):
         skrs.append((f.name, response_from_xml(f.read_text())))
+    # a short SKR (one bundle of the archived one): the document an earlier, larger rehearsal output is replaced by
+    full = skrs[0][1]
+    skrs.append(("one-bundle-of-" + skrs[0][0], full.replace(bundles=full.bundles[:1])))
     tas = []
     for k in range(3 if tier == "quick" else 10):
         kds = {
@@ -802,53 +865,136 @@ def stream_output(res: Result, tier: str, driver_ok: bool, ref: list[tuple[str, 
             for j in range(r.randrange(0, 4))
         }
         tas.append((f"ta{k}", TrustAnchor(id=f"id-{k}", source="http://example/", zone=".", key_digests=kds)))
+    # a trust anchor with many entries (larger than the others) and one whose validity is written with non-UTC offsets
+    lat = tzenv.lattice()
+    kds = {
+        KeyDigest(id=f"L{j}", key_tag=j, algorithm=AlgorithmDNSSEC.RSASHA256, digest_type=DigestDNSSEC.SHA256, digest=bytes([j]) * 32,
+                  valid_from=tzenv.aware(s).astimezone(timezone(timedelta(minutes=(120, -330, 0)[j % 3]))), valid_until=tzenv.aware(s + 86400 * 365) if j % 2 else None)
+        for j, (_label, s) in enumerate(lat[:: max(1, len(lat) // 12)])
+    }
+    tas.append(("ta-lattice", TrustAnchor(id="id-lattice", source="http://example/", zone=".", key_digests=kds)))
+    return skrs, tas
+
+
+def _write_once(what: str, obj: Any, fn: Path | None) -> dict[str, Any]:
+    """One call of the real writer; the log records and stdout it produced."""
+    import kskm.signer as signer
+    from kskm.tools import trustanchor as tat
+
+    buf = io.StringIO()
+    lg = logging.getLogger("verif.output")
+    with capture_logs("kskm.signer", "verif.output") as logs, contextlib.redirect_stdout(buf):
+        if what == "skr":
+            out = run_impl(lambda: signer.output_skr_xml(obj, fn))
+        else:
+            out = run_impl(lambda: tat.output_trustanchor_xml(obj, fn, lg))
+    return {"out": out, "shown": shown_digests(logs), "printed": buf.getvalue()}
+
+
+def _on_disk(fn: Path) -> bytes | None:
+    """The bytes REALLY at the path now: plain builtin open of the real file, nothing patched."""
+    try:
+        with open(fn, "rb") as fd:
+            return fd.read()
+    except FileNotFoundError:
+        return None
+
+
+def stream_output(res: Result, tier: str, driver_ok: bool, ref: list[tuple[str, str]]) -> None:
+    """`output_skr_xml` / `output_trustanchor_xml` on the REAL file system (scratch directory inside /verif).  For every
+    document: to stdout (this gives the document D itself) and to a path that beforehand (PRE_STATES) does not exist / is
+    empty / holds a file 1 octet shorter / equally long / 1 octet longer / an earlier LARGER document of the same kind /
+    300 kB of filler / the writer's own earlier output of a larger document (written by the implementation itself: a
+    rehearsal followed by the real run).  Afterwards the path is read back with the plain builtin open:
+    the digest and words logged are those of the octets on disk, and those octets are exactly D."""
+    import shutil
+
+    r = lib.rng("C17:output")
+    skrs, tas = _output_objects(tier, r)
     cases = []
     lines = []
-    with tempfile.TemporaryDirectory(prefix="kskm_c17_") as d:
+    root = _scratch_dir()
+    try:
         n = 0
         for what, objs in (("skr", skrs), ("ta", tas)):
+            docs: dict[str, bytes] = {}
             for name, obj in objs:
-                for to_file in (True, False):
+                # to stdout: the document itself (print() adds the newline)
+                n += 1
+                sub = root / f"out{n}"
+                sub.mkdir()
+                w = _write_once(what, obj, None)
+                printed = w["printed"]
+                doc = printed[:-1].encode() if printed.endswith("\n") else printed.encode()
+                docs[name] = doc
+                cases.append({"what": what, "name": name, "to_file": False, "pre": "-", "out": w["out"], "files": sorted(p.name for p in sub.iterdir()), "written": None, "shown": w["shown"], "fn": None, "doc": doc, "pre_len": None})
+                lines.append({"op": "output_xml", "what": what, "xmlBytes": hexs(doc), "digest": hexs(sha(doc)), "filename": None})
+            largest = max(docs.values(), key=len)
+            largest_name = max(docs, key=lambda k: len(docs[k]))
+            for name, obj in objs:
+                doc = docs[name]
+                for state in PRE_STATES:
                     n += 1
-                    sub = Path(d) / f"out{n}"
+                    sub = root / f"out{n}"
                     sub.mkdir()
-                    fn = sub / f"{name}.out.xml" if to_file else None
-                    buf = io.StringIO()
-                    lg = logging.getLogger("verif.output")
-                    with capture_logs("kskm.signer", "verif.output") as logs, contextlib.redirect_stdout(buf):
-                        if what == "skr":
-                            out = run_impl(lambda: signer.output_skr_xml(obj, fn))
-                        else:
-                            out = run_impl(lambda: tat.output_trustanchor_xml(obj, fn, lg))
-                    files = sorted(p.name for p in sub.iterdir())
-                    written = fn.read_bytes() if (fn is not None and fn.exists()) else None
-                    cases.append({"what": what, "name": name, "to_file": to_file, "out": out, "files": files, "written": written, "shown": shown_digests(logs), "printed": buf.getvalue(), "fn": None if fn is None else str(fn)})
-                    lines.append({"op": "output_xml", "what": what, "xmlBytes": hexs(written or b""), "digest": hexs(sha(written or b"")), "filename": None if fn is None else str(fn)})
+                    fn = sub / f"{name}.out.xml"
+                    if state == "own-earlier-output":
+                        # history: the implementation itself wrote a larger document to this path before
+                        if len(largest) <= len(doc):
+                            res.bump(f"output:{what}:pre:{state}:not-applicable")
+                            continue
+                        _write_once(what, dict(objs)[largest_name], fn)
+                        pre = _on_disk(fn)
+                    elif state == "absent":
+                        pre = None
+                    else:
+                        pre = _pre_content(state, doc, largest)
+                        if pre is None:
+                            res.bump(f"output:{what}:pre:{state}:not-applicable")
+                            continue
+                        with open(fn, "wb") as fd:
+                            fd.write(pre)
+                    w = _write_once(what, obj, fn)
+                    cases.append({"what": what, "name": name, "to_file": True, "pre": state, "out": w["out"], "files": sorted(p.name for p in sub.iterdir()), "written": _on_disk(fn), "shown": w["shown"], "printed": w["printed"], "fn": str(fn), "doc": doc, "pre_len": None if pre is None else len(pre)})
+                    lines.append({"op": "output_xml", "what": what, "xmlBytes": hexs(doc), "digest": hexs(sha(doc)), "filename": str(fn)})
+    finally:
+        shutil.rmtree(root, ignore_errors=True)
     model = run_driver(lines, exe=DRIVER) if driver_ok else [None] * len(lines)
     for c, m in zip(cases, model):
-        case = {"stream": "output", "what": c["what"], "doc": c["name"], "to_file": c["to_file"]}
+        case = {"stream": "output", "what": c["what"], "doc": c["name"], "to_file": c["to_file"], "path_before": c["pre"], "bytes_before": c["pre_len"], "document_bytes": len(c["doc"])}
         res.count(case)
         res.bump(f"output:{c['what']}:{'file' if c['to_file'] else 'stdout'}")
-        obs = {"out": c["out"], "files": c["files"], "shown": [s[0] for s in c["shown"]], "written_sha256": None if c["written"] is None else ref_hex(sha(c["written"]))}
+        if c["to_file"]:
+            res.bump(f"output:{c['what']}:pre:{c['pre']}")
+        written = c["written"]
+        obs = {"out": c["out"], "files": c["files"], "shown": [s[0] for s in c["shown"]], "on_disk_sha256": None if written is None else ref_hex(sha(written)), "on_disk_bytes": None if written is None else len(written),
+               "document_sha256": ref_hex(sha(c["doc"]))}
         if "ok" not in c["out"]:
             res.violation("output function failed on a well-formed document (harness expectation)", case, key="output:flow", observed=obs)
             continue
         if c["to_file"]:
-            if c["written"] is None or len(c["files"]) != 1:
+            if written is None or len(c["files"]) != 1:
                 res.violation("output: expected exactly one file written", case, key="output:files", observed=obs)
-            elif [s[0] for s in c["shown"]] != [ref_hex(sha(c["written"]))]:
-                res.violation("output: the logged digest is not that of the bytes written", case, key=f"output:{c['what']}:digest", observed=obs)
-            elif c["shown"][0][1] != ref_words(ref, sha(c["written"])):
+            elif [s[0] for s in c["shown"]] != [ref_hex(sha(written))]:
+                res.violation("output: the logged digest is not that of the bytes written", case, key=f"output:{c['what']}:digest", observed=obs,
+                              on_disk_tail=written[-60:].decode("utf-8", "replace"))
+            elif c["shown"][0][1] != ref_words(ref, sha(written)):
                 res.violation("output: the logged words are not those of the bytes written", case, key=f"output:{c['what']}:words", observed=obs)
+            if written is not None and written != c["doc"]:
+                res.violation("output: the file on disk is not the document (the text the same call prints without a file name)", case, key=f"output:{c['what']}:content", observed=obs,
+                              on_disk_tail=written[-60:].decode("utf-8", "replace"))
+            if c.get("printed"):
+                res.violation("output to a file also printed to stdout", case, key="output:both", observed=obs)
         else:
             if c["files"] or c["shown"]:
                 res.violation("output without a file name wrote a file or logged a digest", case, key="output:stdout", observed=obs)
         if m is not None:
+            # the model: one open-for-write (truncating), one write of the document, the digest of the document logged
             m_written = [(w["path"], w["data"]) for w in m["written"]]
-            i_written = [] if c["written"] is None else [(c["fn"], hexs(c["written"]))]
+            i_written = [] if written is None else [(c["fn"], hexs(written))]
             if m_written != i_written or m["shown"] != [s[0] and hexs(bytes.fromhex(s[0])) for s in c["shown"]]:
                 res.disagreement("output_xml: model != implementation", case, obs, {"written": [(p, hashlib.sha256(bytes.fromhex(x)).hexdigest()) for p, x in m_written], "shown": m["shown"]})
-        if len(res.samples) < 6 and c["to_file"] and c["what"] == "ta":
+        if len(res.samples) < 6 and c["to_file"] and c["what"] == "ta" and c["pre"] == "filler-300k":
             res.sample({"case": case, "observed": obs})
 
 
